@@ -93,6 +93,9 @@ impl SimAlloc {
     }
 
     fn fresh(&mut self) -> u64 {
+        if self.cfg.frame0_first && !self.ever.contains(&0) && self.zones.is_table_zone(0) {
+            return 0;
+        }
         loop {
             let cand = match self.cfg.policy {
                 Policy::Ascending | Policy::Lifo | Policy::Fifo => {
